@@ -48,6 +48,15 @@ def main():
     chk.evaluations += n
     if c:
         cex.append(c)
+    # sequences: controlled history in fresh worker processes (unit calls, several files per process, several files per command line)
+    seq_v, seq_stats, seq_lines, seq_outs, seq_e2e = P.sequence_stream(chk, R, workers=4 if chk.thorough else 3)
+    chk.coverage['sequences'] = seq_stats
+    if driver_ok and seq_lines:
+        chk.stream('tags-seq', seq_lines, seq_outs)
+    c, n = P.falsify_cli_sequences(chk, R, seq_e2e, 12 if chk.thorough else 4)
+    chk.evaluations += n
+    if c:
+        cex.append(c)
     replays, stats, lines, outs = P.taint_stream(chk, R, (2700 if chk.thorough else 500) * mult, sites)
     chk.coverage['taint'] = stats
     chk.note_cases({('tag', t) for t in stats['tags_seen']})
@@ -67,6 +76,9 @@ def main():
     for v in replays:
         reported_keys.add(v['key'])
         chk.violation(f"{v['kind']}: {v.get('tag')} at {v.get('where')}", v, key=v['key'])
+    for v in seq_v:
+        reported_keys.add(v['key'])
+        chk.violation(f"{v['kind']}: {v.get('tag')} at {v.get('where')}", v, key=v['key'], **({'no_input': True} if v.get('no_input') else {}))
     for c in cex:
         chk.violation(c['kind'] + ': real code deviates from the property', c, key=c['kind'] + ':' + str(c.get('input', '')))
     # a site the inventory flags but the taint run did not reach with hostile text: no concrete input
